@@ -14,8 +14,8 @@ def sh(cmd, cwd=None, timeout=3600, env=None):
     p = subprocess.run(cmd, shell=True, cwd=cwd, stdout=subprocess.PIPE, stderr=subprocess.STDOUT, text=True, timeout=timeout, env=e)
     return p.returncode, p.stdout
 
-def confirm(pid, k):
-    wt = "/tmp/seed_%s" % pid
+def confirm(pid, k, rnd=1):
+    wt = "/tmp/seed%s_%s" % ("" if rnd == 1 else str(rnd), pid)
     tgt = "CARGO_TARGET_DIR=%s/target" % wt
     patch = os.path.join(wt, "seed_%s.patch" % k)
     demo = "demo_%s" % k
@@ -36,7 +36,7 @@ def confirm(pid, k):
     res["confirmed"] = good
     print(json.dumps(res, indent=1))
     if good:
-        d = os.path.join(ROOT, "seeded", pid, str(k)); os.makedirs(d, exist_ok=True)
+        d = os.path.join(ROOT, "seeded", pid, str(int(k) + 2 * (rnd - 1))); os.makedirs(d, exist_ok=True)
         shutil.copy(patch, os.path.join(d, "patch.diff"))
         shutil.copy(os.path.join(wt, "tests", demo + ".rs"), os.path.join(d, "demo.rs"))
         notes = open(os.path.join(wt, "seed_%s.md" % k)).read() if os.path.exists(os.path.join(wt, "seed_%s.md" % k)) else ""
@@ -67,6 +67,6 @@ def run(pid, k, ids):
 
 if __name__ == "__main__":
     if sys.argv[1] == "confirm":
-        sys.exit(confirm(sys.argv[2], sys.argv[3]))
+        sys.exit(confirm(sys.argv[2], sys.argv[3], int(sys.argv[4]) if len(sys.argv) > 4 else 1))
     else:
         sys.exit(run(sys.argv[2], sys.argv[3], sys.argv[4:] or [sys.argv[2]]))
